@@ -126,6 +126,27 @@ def main():
             pr = check_pair(ref, snap, True)
             if pr:
                 bat.fail("C09.diff-laws-ignore-device", pr[0], {"ref": ref, "snap": snap, "ignore_device": True, "problems": pr[:3]}, "DirectorySnapshotDiff.__init__")
+    # the root's own identity takes part in the change (mv r r_old; mv r_old/a r  and the reverse): the second snapshot's
+    # root carries the inode of a directory of the first, or the other way round
+    k = 0
+    for ref, snap in (allp if TIER != "thorough" else list(itertools.product(snaps, snaps)))[:: 7]:
+        dref = [p for p, v in ref.items() if v[4] and p != ROOT]
+        if not dref:
+            continue
+        for swap_in_snap in (True, False):
+            a, b = dict(ref), dict(snap)
+            tgt, other = (b, a) if swap_in_snap else (a, b)
+            donor = other[dref[0]] if dref[0] in other and other[dref[0]][4] else None
+            if donor is None:
+                continue
+            tgt[ROOT] = (donor[0], 1, tgt[ROOT][2], 0, True)
+            if len({v[0] for v in tgt.values()}) != len(tgt):
+                continue        # inodes are unique within one snapshot
+            k += 1
+            bat.case(hash(("rootid", tuple(sorted(a.items())), tuple(sorted(b.items())))), desc={"ref": {q: list(v) for q, v in a.items()}, "snap": {q: list(v) for q, v in b.items()}, "note": "root identity moves"})
+            pr = check_pair(a, b, False, False)
+            if pr:
+                bat.fail("C09.diff-laws(root identity takes part)", pr[0], {"ref": a, "snap": b, "ignore_device": False, "via_sub": False, "problems": pr[:3]}, "DirectorySnapshot.__init__")
     # empty snapshot as reference: everything is created
     for snap in snaps[:: max(1, len(snaps) // 40)]:
         d = DirectorySnapshotDiff(EmptyDirectorySnapshot(), build(snap))
